@@ -95,6 +95,11 @@ fn duration(rng: &mut Rng) -> Option<Duration> {
     let v = gen_fields(rng, free);
     dur10(v).ok()
 }
+fn near_duration(rng: &mut Rng) -> Option<Duration> {
+    let sg = if rng.bool() { 1.0 } else { -1.0 };
+    let v = [0.0, sg * *rng.pick(&[0.0, 0.0, 1.0, 13.0]), sg * *rng.pick(&[0.0, 0.0, 1.0]), sg * rng.range(0, 3) as f64, sg * *rng.pick(&[0.0, 1.0, 23.0, 24.0, 25.0, 47.0, 49.0]), sg * *rng.pick(&[0.0, 0.0, 30.0, 59.0]), 0.0, 0.0, 0.0, sg * *rng.pick(&[0.0, 0.0, 1.0])];
+    dur10(v).ok()
+}
 fn date(rng: &mut Rng) -> Option<PlainDate> {
     let (y, m, d) = if rng.chance(1, 3) { (hi32(rng), hu8(rng), hu8(rng)) } else { (rng.range(-271_821, 275_760) as i32, rng.range(1, 12) as u8, rng.range(1, 31) as u8) };
     let cal = calendar(rng);
@@ -147,9 +152,27 @@ pub fn run(rep: &mut Report) {
         z
     };
     let prov = TableProvider::new(zones.clone());
+    // zones with a transition that skips (or repeats) most of a day or more: synthetic ones through the table provider,
+    // the real ones (date-line moves) through the library's own provider
+    let fs = temporal_rs::tzdb::FsTzdbProvider::default();
+    let day_jump = |z: &Zone| -> Vec<i64> {
+        let mut out = Vec::new();
+        let mut before = z.initial;
+        for (t, after) in &z.trans {
+            if (after - before).abs() >= 20 * 3600 {
+                out.push(*t);
+            }
+            before = *after;
+        }
+        out
+    };
+    let jump_table: Vec<(Zone, Vec<i64>)> = zones.iter().map(|z| (z.clone(), day_jump(z))).filter(|(_, j)| !j.is_empty()).collect();
+    let jump_real: Vec<(Zone, Vec<i64>)> = load_real("/verif/.build/zones.tbl").into_iter().map(|z| { let j = day_jump(&z); (z, j) }).filter(|(_, j)| !j.is_empty()).collect();
+    rep.add("storm/day-jump zones (tables)", jump_table.len() as u64);
+    rep.add("storm/day-jump zones (tzdb)", jump_real.len() as u64);
     let mut evals = 0u64;
     for _ in 0..n {
-        let scenario = rng.below(9);
+        let scenario = rng.below(10);
         // the generators draw from the rng before `begin` only through this sub-seed, so that replay is exact
         let sub = rng.u64();
         if !rep.begin() {
@@ -334,10 +357,14 @@ pub fn run(rep: &mut Report) {
                         0 => None,
                         1 => date(r).map(RelativeTo::PlainDate),
                         _ => {
+                            // anywhere, or within a few seconds / hours / days of one of the zone's transitions
                             let z = r.pick(&zones);
-                            call(|| ZonedDateTime::try_new(r.range128(-MAX_INSTANT, MAX_INSTANT), calendar(r), TimeZone::try_from_identifier_str(&z.name)?)).ok().map(RelativeTo::ZonedDateTime)
+                            let t = if z.trans.is_empty() || r.chance(1, 3) { r.range128(-MAX_INSTANT, MAX_INSTANT) } else { z.trans[r.below(z.trans.len() as u64) as usize].0 as i128 * SEC + r.range128(-3, 3) * *r.pick(&[1i128, SEC, 3600 * SEC, NS_PER_DAY]) + r.range128(-2, 2) };
+                            call(|| ZonedDateTime::try_new(t, calendar(r), TimeZone::try_from_identifier_str(&z.name)?)).ok().map(RelativeTo::ZonedDateTime)
                         }
                     };
+                    // half of the time a duration of the size of a zone transition (a few days, hours, minutes) instead of a hostile one
+                    let d = if r.bool() { d } else { near_duration(r).unwrap_or(d) };
                     let _ = call(|| d.round_with_provider(rounds(r), rel.clone(), &prov));
                     let _ = call(|| d.total_with_provider(unit(r).unwrap_or(Unit::Day), rel.clone(), &prov));
                     if let Some(o) = duration(r) {
@@ -366,7 +393,8 @@ pub fn run(rep: &mut Report) {
                             let _ = call(|| zdt.add_with_provider(&du, overflow(r), &prov));
                             let _ = call(|| zdt.subtract_with_provider(&du, overflow(r), &prov));
                         }
-                        if let Out::Ok(o) = call(|| ZonedDateTime::try_new(r.range128(-MAX_INSTANT, MAX_INSTANT), zdt.calendar().clone(), tz.clone())) {
+                        let other = if r.bool() { r.range128(-MAX_INSTANT, MAX_INSTANT) } else { t + r.range128(-3, 3) * *r.pick(&[SEC, 3600 * SEC, NS_PER_DAY, 30 * NS_PER_DAY]) + r.range128(-5, 5) };
+                        if let Out::Ok(o) = call(|| ZonedDateTime::try_new(other, zdt.calendar().clone(), tz.clone())) {
                             let _ = call(|| zdt.until_with_provider(&o, diffs(r), &prov));
                             let _ = call(|| zdt.since_with_provider(&o, diffs(r), &prov));
                         }
@@ -378,6 +406,57 @@ pub fn run(rep: &mut Report) {
                     }
                 }
                 rep.hit("storm/zoned");
+            }
+            8 => {
+                // around a transition that skips or repeats a whole day: the neighbouring calendar day does not exist, so
+                // "one day later" and "now" can be the same instant
+                let real = !jump_real.is_empty() && r.bool();
+                let (z, jumps) = if real { r.pick(&jump_real) } else if jump_table.is_empty() { continue } else { r.pick(&jump_table) };
+                let tt = *r.pick(jumps) as i128 * SEC;
+                let t = tt + r.range128(-3, 3) * NS_PER_DAY + *r.pick(&[0i128, 0, 1, -1, 3600 * SEC, 12 * 3600 * SEC, -3600 * SEC, 43_199 * SEC]);
+                let cal = if r.chance(1, 4) { calendar(r) } else { Calendar::default() };
+                macro_rules! with_provider {
+                    ($p:expr) => {{
+                        if let Out::Ok(zdt) = call(|| ZonedDateTime::try_new(t, cal.clone(), TimeZone::try_from_identifier_str(&z.name)?)) {
+                            let d = near_duration(r);
+                            let u = *r.pick(&[Unit::Day, Unit::Day, Unit::Week, Unit::Month, Unit::Year, Unit::Hour]);
+                            if let Some(d) = &d {
+                                let rel = Some(RelativeTo::ZonedDateTime(zdt.clone()));
+                                let _ = call(|| d.total_with_provider(u, rel.clone(), $p));
+                                let mut o = RoundingOptions::default();
+                                o.smallest_unit = Some(u);
+                                o.largest_unit = *r.pick(&[None, Some(Unit::Day), Some(Unit::Month), Some(Unit::Year)]);
+                                o.rounding_mode = mode(r);
+                                o.increment = if r.bool() { None } else { RoundingIncrement::try_new(*r.pick(&[1u32, 2, 3])).ok() };
+                                let _ = call(|| d.round_with_provider(o, rel.clone(), $p));
+                                let _ = call(|| d.compare_with_provider(&d.negated(), rel.clone(), $p));
+                                let _ = call(|| zdt.add_with_provider(d, overflow(r), $p));
+                                let _ = call(|| zdt.subtract_with_provider(d, overflow(r), $p));
+                            }
+                            let other = t + r.range128(-3, 3) * NS_PER_DAY + r.range128(-30, 30) * 3600 * SEC + r.range128(-1, 1);
+                            if let Out::Ok(ot) = call(|| ZonedDateTime::try_new(other, cal.clone(), TimeZone::try_from_identifier_str(&z.name)?)) {
+                                let mut st = DifferenceSettings::default();
+                                st.largest_unit = *r.pick(&[Some(Unit::Day), Some(Unit::Week), Some(Unit::Month), Some(Unit::Year), None]);
+                                st.smallest_unit = *r.pick(&[Some(Unit::Day), Some(Unit::Day), Some(Unit::Hour), None, Some(Unit::Month)]);
+                                st.rounding_mode = mode(r);
+                                st.increment = if r.bool() { None } else { RoundingIncrement::try_new(*r.pick(&[1u32, 2, 5])).ok() };
+                                let _ = call(|| zdt.until_with_provider(&ot, st, $p));
+                                let _ = call(|| zdt.since_with_provider(&ot, st, $p));
+                            }
+                            let _ = call(|| zdt.hours_in_day_with_provider($p));
+                            let _ = call(|| zdt.start_of_day_with_provider($p));
+                            if let Some(tm) = time(r) {
+                                let _ = call(|| zdt.with_plain_time_and_provider(tm, $p));
+                            }
+                        }
+                    }};
+                }
+                if real {
+                    with_provider!(&fs);
+                } else {
+                    with_provider!(&prov);
+                }
+                rep.hit("storm/day-jump");
             }
             _ => {
                 let _ = call(|| RoundingIncrement::try_new(*r.pick(&[0u32, 1, u32::MAX, 1_000_000_000, 1_000_000_001])));
@@ -402,7 +481,7 @@ pub fn run(rep: &mut Report) {
         rep.case_idx = case_idx;
         rep.violation("C03.broken", "call", &key, json!({"found_by": "C03 api storm", "first_case": case_idx, "occurrences": count}), msg, "a value or a Type/Range/Syntax error".into());
     }
-    for c in ["cases", "storm/strings", "storm/date", "storm/datetime", "storm/time", "storm/instant", "storm/duration", "storm/zoned"] {
+    for c in ["cases", "storm/strings", "storm/date", "storm/datetime", "storm/time", "storm/instant", "storm/duration", "storm/zoned", "storm/day-jump"] {
         rep.require(c);
     }
 }
